@@ -146,7 +146,13 @@ class StreamItemQueue:
             entry = await entries.get() if held is None else held
             held = None
             if skipping and not isinstance(entry, _ErrorEntry):
-                continue  # items after a lost item must not be delivered
+                # items after a lost item must not be delivered; the work they
+                # carry will never be seen by anybody else
+                skipped: list[Awaitable[Any]] = []
+                _abort_entry_work(entry, None, skipped)
+                if skipped:
+                    await gather(*skipped, return_exceptions=True)
+                continue
             if isfuture(entry):
                 if not entry.done():
                     await wait((entry,))
@@ -222,16 +228,17 @@ class StreamItemQueue:
             # release a producer that was still parked and settle any still
             # pending early executed item futures.
             if not parked and not self._pending_futures:
-                return None
+                # abort the work carried by completed but undelivered items
+                return self._abort_buffered_work(reason)
             for future in self._pending_futures:
                 future.cancel()
-            return self._settle_parked()
+            return self._settle_parked(reason)
         if running and not self._producer_cancelled:
             producer_task.cancel()  # type: ignore[union-attr]
             self._producer_cancelled = True
         for future in self._pending_futures:
             future.cancel()
-        if not running and not self._pending_futures:
+        if not running and not self._pending_futures and self._entries.empty():
             # nothing to cancel asynchronously, just run the cleanup callback
             on_abort, self._on_abort = self._on_abort, None  # run only once
             if on_abort is not None:
@@ -241,12 +248,41 @@ class StreamItemQueue:
             return None
         return self._cleanup(reason)
 
-    async def _settle_parked(self) -> None:
+    async def _settle_parked(self, reason: BaseException | None = None) -> None:
         """Await the cancelled parked producer and settle pending item futures."""
         # the callers guarantee that the producer task has been created
         producer_task = cast("Task[None]", self._producer_task)
         await gather(producer_task, return_exceptions=True)
         await self._settle_pending()
+        buffered = self._abort_buffered_work(reason)
+        if buffered is not None:
+            await buffered
+
+    def _abort_buffered_work(
+        self, reason: BaseException | None = None
+    ) -> Awaitable[None] | None:
+        """Abort the work carried by completed items that were never delivered.
+
+        With early execution, the results of completed items wait in the queue
+        together with the work they produced (nested streams with producers
+        that have already been started, deferred fragments). When the queue is
+        aborted, nobody else will ever see that work, so it is aborted here.
+        """
+        entries = self._entries
+        awaitables: list[Awaitable[Any]] = []
+        while True:
+            try:
+                entry = entries.get_nowait()
+            except QueueEmpty:
+                break
+            _abort_entry_work(entry, reason, awaitables)
+        if not awaitables:
+            return None
+
+        async def settle_awaitables() -> None:
+            await gather(*awaitables, return_exceptions=True)
+
+        return settle_awaitables()
 
     async def _settle_pending(self) -> None:
         """Cancel and settle all still pending item futures."""
@@ -265,8 +301,49 @@ class StreamItemQueue:
             self._producer_cancelled = True
             await gather(producer_task, return_exceptions=True)
         await self._settle_pending()
+        buffered = self._abort_buffered_work(reason)
+        if buffered is not None:
+            await buffered
         on_abort, self._on_abort = self._on_abort, None  # run only once
         if on_abort is not None:
             cleanup = on_abort(reason)
             if is_awaitable(cleanup):
                 await cleanup
+
+
+def _abort_entry_work(
+    entry: Any, reason: BaseException | None, awaitables: list[Awaitable[Any]]
+) -> None:
+    """Abort the work carried by a settled queue entry (an item result)."""
+    if isfuture(entry):
+        if not entry.done() or entry.cancelled() or entry.exception() is not None:
+            return
+        entry = entry.result()
+    work = getattr(entry, "work", None)
+    if work:
+        _abort_work(work, reason, awaitables)
+
+
+def _abort_work(
+    work: Any, reason: BaseException | None, awaitables: list[Awaitable[Any]]
+) -> None:
+    """Abort the tasks and streams of the given work, including nested work."""
+    for task in work.tasks:
+        computation = task.computation
+        pending_future = computation.pending_future
+        abort_result = computation.abort(reason)
+        if is_awaitable(abort_result):
+            awaitables.append(abort_result)
+        if pending_future is not None:
+            awaitables.append(pending_future)
+            continue
+        try:
+            result = computation.result()
+        except BaseException:  # noqa: BLE001
+            continue  # failed or aborted
+        if result.work:
+            _abort_work(result.work, reason, awaitables)
+    for stream in work.streams:
+        abort_result = stream.queue.abort(reason)
+        if is_awaitable(abort_result):
+            awaitables.append(abort_result)
